@@ -209,9 +209,12 @@ pub fn run(args: &Args) {
         match i % 5 {
             0 | 1 | 2 => runtime_case(&mut rep, &ev, &strict, &mut rng, i),
             3 => parse_case(&mut rep, &mut rng),
-            _ if i % 10 == 9 => never_failing_case(&mut rep, &mut rng),
-            _ if i % 20 == 4 => value_that_is_a_reference_case(&mut rep, &mut rng),
-            _ => nonfinite_case(&mut rep, &mut rng),
+            _ => match (i / 5) % 8 {
+                0 | 1 => never_failing_case(&mut rep, &mut rng),
+                2 => value_that_is_a_reference_case(&mut rep, &mut rng),
+                3 => boundary_numbers_case(&mut rep, &mut rng),
+                _ => nonfinite_case(&mut rep, &mut rng),
+            },
         }
     }
     emit_report(args, &rep);
@@ -441,6 +444,43 @@ fn value_that_is_a_reference_case(rep: &mut Report, rng: &mut Rng) {
 }
 
 /// Calls whose contract is "a value or null, never a failure": whatever text `to_number` is given.
+/// Well-typed numeric calls over integers at the edges of the 64-bit ranges (and the doubles next to them): such
+/// a call returns a value; it does not fail with an error of the parse class, lose its expression, or panic.
+fn boundary_numbers_case(rep: &mut Report, rng: &mut Rng) {
+    let pool: [Value; 20] = [
+        json!(9223372036854775807i64), json!(-9223372036854775808i64), json!(18446744073709551615u64), json!(9223372036854775808u64), json!(9223372036854775806i64), json!(-9223372036854775807i64),
+        json!(9007199254740992i64), json!(9007199254740993i64), json!(-9007199254740993i64), json!(4294967296i64), json!(2147483648i64), json!(-2147483649i64), json!(1), json!(-1), json!(0),
+        json!(1e19), json!(-1e19), json!(9.223372036854775807e18), json!(1.5), json!(1e300),
+    ];
+    let n = 1 + rng.below(4);
+    let xs: Vec<Value> = (0..n).map(|_| pool[rng.below(pool.len())].clone()).collect();
+    let doc = json!({"xs": xs, "ps": xs.iter().map(|v| json!({"v": v})).collect::<Vec<_>>(), "x": xs[0]});
+    const TEXTS: [&str; 24] = [
+        "sum(xs)", "avg(xs)", "max(xs)", "min(xs)", "sort(xs)", "abs(x)", "ceil(x)", "floor(x)", "to_number(x)", "to_string(x)", "map(&abs(@), xs)", "reverse(xs)", "contains(xs, x)", "sort_by(ps, &v)[0].v",
+        "max_by(ps, &v).v", "min_by(ps, &abs(v)).v", "xs[?@ < x]", "xs[?@ >= x]", "x == xs[-1]", "join(',', map(&to_string(@), xs))", "sum(map(&abs(@), xs))", "length(xs)", "not_null(x)", "xs[*].ceil(@)",
+    ];
+    for _ in 0..3 {
+        let text = TEXTS[rng.below(TEXTS.len())];
+        rep.evaluations += 1;
+        match guarded(|| jmespath::compile(text).and_then(|e| e.search(rcvar_of(&doc)))) {
+            Ok(Ok(_)) => {
+                rep.count("boundary_number_call_returned");
+                rep.nontrivial(refimpl::rng::fnv(format!("{}|{}", text, doc).as_bytes()));
+            }
+            Ok(Err(e)) if err_class(&e) == "parse" || e.expression != text => rep.violation(
+                "C12/parse-class-error-from-a-call-that-cannot-fail",
+                json!({"expression": text, "document": doc, "error": err_json(&e), "what": "a well-typed numeric call over integers at the edge of the 64-bit ranges"}),
+            ),
+            Ok(Err(e)) => {
+                // (an overflowing sum is the known non-finite finding's business; anything else still has to be located)
+                check_coordinates(rep, &e, text, "runtime");
+                rep.count("boundary_number_call_failed_with_a_located_runtime_error");
+            }
+            Err(p) => rep.violation(&format!("C12/panic/{}", panic_site(&p)), json!({"expression": text, "document": doc, "panic": p})),
+        }
+    }
+}
+
 fn never_failing_case(rep: &mut Report, rng: &mut Rng) {
     const TEXTS: [&str; 30] = [
         "2021-01-01", "1.2.3", "007", "1.", "-", "1e999", "-1e999", "1e", "1e+", "--1", "+1", ".5", "0x10", "1_000", "1,5", "12abc", "١٢", "1e-999", "00", "-0", "-01", "1.0.0", "1..2", "1e1e1",
